@@ -291,6 +291,21 @@ impl Scene for S {
             return out;
         };
         let settled = t.res.end == crate::vexec::EndReason::Quiescent;
+        // --- a started() that fails (the first one or the one of a restart) is the end of A: no
+        // callback of A runs after it - its task dies there, it does not carry on
+        {
+            let starts: Vec<&crate::trace::CbRec> = an.enters.iter().filter(|e| e.a == 0 && e.cb == Cb::Started).collect();
+            if let Some(n) = a_started_cfg.iter().position(|b| *b != world::StartBeh::Ok) {
+                if let Some(fs) = starts.get(n) {
+                    crate::check::oblige("failed-start-ends-the-actor");
+                    // (of that actor value: the registry may spawn a fresh instance of the same
+                    // type later on, which is somebody else)
+                    if let Some(late) = an.enters.iter().find(|e| e.a == 0 && e.inst == fs.inst && e.idx > fs.idx) {
+                        v("failed-start-ends-the-actor", format!("C06/callback-after-a-failed-start/cause={ck}"), format!("A's start #{n} failed, yet {:?} ran afterwards: the actor carried on", late.cb));
+                    }
+                }
+            }
+        }
         // --- nothing but errors reaches the others: no operation of any client - on A or on a
         // bystander - ends in a panic thrown into its caller
         for o in &an.ops {
